@@ -128,6 +128,26 @@ def rule_combine(ctx):
     return r
 
 
+def _extra_guards(f, anchor, loop, acc):
+    """If statements inside ``loop`` that enclose ``anchor`` and do not test the
+    exponent accumulator (the stripping guard itself does)."""
+    accname = None
+    if isinstance(acc, ast.Assign) and isinstance(acc.targets[0], ast.Name):
+        accname = acc.targets[0].id
+    elif isinstance(acc, ast.AugAssign) and isinstance(acc.target, ast.Name):
+        accname = acc.target.id
+    inside = {id(x) for x in ast.walk(loop)}
+    out = []
+    for i, taken in C.enclosing_ifs(f, anchor):
+        if id(i) not in inside:
+            continue
+        names = {x.id for x in ast.walk(i.test) if isinstance(x, ast.Name)}
+        if accname is not None and accname in names:
+            continue
+        out.append((i, taken))
+    return out
+
+
 def rule_pair(ctx):
     r = RuleResult("C19-PAIR", "exponent accumulation is paired with the normalisation", 3)
     f = ctx.p.func(C.CONTRACT, "Contractor.__call__")
@@ -198,6 +218,11 @@ def rule_pair(ctx):
         r.violation(key2, C.loc(f, anchor), "normalisation is not applied after every pairwise step")
     elif inside_single:
         r.violation(key2, C.loc(f, anchor), "normalisation applied on the single-term branch")
+    elif _extra_guards(f, anchor, loops[0], acc):
+        g, taken = _extra_guards(f, anchor, loops[0], acc)[0]
+        cond = C.unparse(g.test, 40) if taken else f"not ({C.unparse(g.test, 40)})"
+        r.violation(key2, C.loc(f, anchor), f"normalisation only happens under `{cond}`: pairwise "
+                    "steps on the other branch are neither rescaled nor counted in the exponent")
     else:
         r.ok(key2, C.loc(f, anchor), "applied once per pairwise step, not for single-term "
              "preprocessing")
